@@ -105,6 +105,7 @@ class Verdict:
     notes: list = field(default_factory=list)
     bad_rows: set = field(default_factory=set)   # row positions violating a row-level constraint
     undecided: bool = False     # the docs do not settle this case: nothing asserted
+    rows_known: bool = True     # the set of offending rows is predicted (even if the report shape is not)
 
     def reasons(self):
         return sorted({e.reason for e in self.errors})
@@ -145,14 +146,14 @@ def field_errors(fs, phys, values, where, name, errs, v):
         if fs["dtype"] == "str" and phys == "object":
             ok_dtype = all(x is None or isinstance(x, str) for x in values)
             if not ok_dtype:
-                v.exact = False
+                v.exact = False; v.rows_known = False
     if not fs.get("nullable", False):
         cells = [(i, None) for i, x in enumerate(values) if is_null(x)]
         if cells:
             errs.append(Err("SERIES_CONTAINS_NULLS", name, None, cells, where=where))
     if fs.get("unique", False):
         if sum(1 for x in values if is_null(x)) >= 2:
-            v.exact = False
+            v.exact = False; v.rows_known = False
             v.notes.append("two nulls in a unique field: docs silent")
         dup = duplicated([("null",) if is_null(x) else (type(x).__name__ if isinstance(x, bool) else "", x) for x in values],
                          KEEP[fs.get("report_duplicates", "all")])
@@ -170,7 +171,7 @@ def field_errors(fs, phys, values, where, name, errs, v):
             errs.append(Err("WRONG_DATATYPE", name, None, None, scalar=phys, where=where))
         if fs.get("checks"):
             # what value checks report on wrongly typed data is not specified
-            v.exact = False
+            v.exact = False; v.rows_known = False
         return
     for ci, chk in enumerate(fs.get("checks", [])):
         ign = chk.get("ignore_na", True)
@@ -283,7 +284,7 @@ def evaluate(spec, table):
                 continue
             rows = list(zip(*cols))
             if any(any(is_null(x) for x in r) for r in rows):
-                v.exact = False
+                v.exact = False; v.rows_known = False
             keys = [tuple(("null",) if is_null(x) else (isinstance(x, bool), x) for x in r) for r in rows]
             dup = duplicated(keys, KEEP[spec.get("report_duplicates", "all")])
             bad = [i for i, d in enumerate(dup) if d]
@@ -318,7 +319,7 @@ def evaluate(spec, table):
                     bad.append((i, (col["name"], x)))
         if bad:
             errs.append(Err("DATAFRAME_CHECK", None, ci, bad, where="frame"))
-            v.exact = False      # report shape: one dict of failing cells per row
+            v.exact = False      # report shape only: one dict of failing cells per row
     _index_errors(spec, table, errs, v)
     return _finish(v)
 
@@ -346,7 +347,7 @@ def _index_errors(spec, table, errs, v):
         # MultiIndex: generators keep table levels == declared levels by name
         # and order (other shapes are exercised by boundary monitors only)
         if len(tlev) != len(ix) or [l["name"] for l in tlev] != [f["name"] for f in ix]:
-            v.exact = False
+            v.exact = False; v.rows_known = False
             v.notes.append("multiindex shape differs from declaration")
             v.accept = None
             return
